@@ -32,6 +32,9 @@ Fixpoint pk (lastn : nat) (chunks : list int) : bytes :=
   | x :: r => unpack_chunk 7 x ++ pk lastn r
   end.
 
+(** run-length literal: [rp n b] is [n] copies of the byte [b] (large filler values) *)
+Definition rp (n : N) (b : N) : bytes := repeat b (N.to_nat n).
+
 Example pk_example : pk 2 [1976943448883713%uint63; 2313%uint63] = [1; 2; 3; 4; 5; 6; 7; 9; 9].
 Proof. vm_compute. reflexivity. Qed.
 
